@@ -1,16 +1,16 @@
 //! C03: Key Eq / Ord / Hash coherence.
-use metrics::{Key, Label, SharedString};
+use metrics::{Key, KeyName, Label, SharedString};
 use nd::{cover, harnesses};
 use std::cmp::Ordering;
+use std::hash::{Hash, Hasher};
 use std::sync::Arc;
 
-const T3: &[&str] = &["", "a", "b"];
 
 fn any_label() -> Label {
-    Label::from_static_parts(crate::pick(T3), crate::pick(T3))
+    Label::from_static_parts(crate::s1(), crate::s1())
 }
 
-/// Key with `n` labels that has not been hashed at construction (no ahash in the path).
+/// Key with `n` labels that has not been hashed at construction (no hasher in the path).
 fn key_n(name: &'static str, n: usize) -> Key {
     let mut v = Vec::with_capacity(n);
     for _ in 0..n {
@@ -18,6 +18,59 @@ fn key_n(name: &'static str, n: usize) -> Key {
     }
     let labels: &'static [Label] = Box::leak(v.into_boxed_slice());
     Key::from_static_labels(name, labels)
+}
+
+/// Records the exact byte stream fed to the hasher: equal hash for every hasher <=> equal stream.
+pub struct RecHasher {
+    pub buf: [u8; 32],
+    pub len: usize,
+}
+impl RecHasher {
+    pub fn new() -> Self {
+        RecHasher { buf: [0; 32], len: 0 }
+    }
+    pub fn same(&self, o: &RecHasher) -> bool {
+        if self.len != o.len {
+            return false;
+        }
+        let mut i = 0;
+        while i < 32 {
+            if self.buf[i] != o.buf[i] {
+                return false;
+            }
+            i += 1;
+        }
+        true
+    }
+}
+impl Hasher for RecHasher {
+    fn finish(&self) -> u64 {
+        0
+    }
+    fn write(&mut self, bytes: &[u8]) {
+        for b in bytes {
+            self.buf[self.len] = *b;
+            self.len += 1;
+        }
+    }
+}
+
+// Stubs for metrics::KeyHasher (ahash is out of reach of the SAT back end): a cheap rotate/xor fold
+// kept in a global that `finish` returns and resets. `generate_key_hash` is default(); write*; finish().
+static mut KH_ACC: u64 = 0x9e37;
+pub fn kh_write(_h: &mut metrics::KeyHasher, bytes: &[u8]) {
+    unsafe {
+        for b in bytes {
+            KH_ACC = KH_ACC.rotate_left(7) ^ (*b as u64);
+        }
+    }
+}
+pub fn kh_finish(_h: &metrics::KeyHasher) -> u64 {
+    unsafe {
+        let r = KH_ACC;
+        KH_ACC = 0x9e37;
+        r
+    }
 }
 
 fn check_pair(a: &Key, b: &Key) {
@@ -32,11 +85,199 @@ fn check_pair(a: &Key, b: &Key) {
 }
 
 fn pair(n: usize) {
-    let a = key_n(crate::pick(T3), n);
-    let b = key_n(crate::pick(T3), n);
+    let a = key_n(crate::s1(), n);
+    let b = key_n(crate::s1(), n);
     check_pair(&a, &b);
     std::mem::forget(a);
     std::mem::forget(b);
+}
+
+/// strings that are prefixes of one static buffer (same start address, different lengths)
+fn alias_pair(n: usize) {
+    let mk = |n: usize| {
+        let mut v = Vec::with_capacity(n);
+        for _ in 0..n {
+            v.push(Label::from_static_parts(crate::alias(), crate::alias()));
+        }
+        let labels: &'static [Label] = Box::leak(v.into_boxed_slice());
+        Key::from_static_labels(crate::alias(), labels)
+    };
+    let a = mk(n);
+    let b = mk(n);
+    check_pair(&a, &b);
+    assert!((a == b) == (a.name() == b.name() && a.labels().zip(b.labels()).all(|(x, y)| x.key() == y.key() && x.value() == y.value())) || n > 1,
+            "eq_is_content_equality");
+    std::mem::forget((a, b));
+}
+
+/// pairs of different label counts and reflexivity
+fn pair_mixed() {
+    let na = nd::below(3);
+    let nb = nd::below(3);
+    let a = key_n(crate::s1(), na);
+    let b = key_n(crate::s1(), nb);
+    check_pair(&a, &b);
+    assert!(a == a && a.cmp(&a) == Ordering::Equal, "reflexive");
+    std::mem::forget(a);
+    std::mem::forget(b);
+}
+
+fn triple(n: usize) {
+    let a = key_n(crate::s1(), n);
+    let b = key_n(crate::s1(), n);
+    let c = key_n(crate::s1(), n);
+    let (ab, bc, ac) = (a.cmp(&b), b.cmp(&c), a.cmp(&c));
+    cover!(ab == Ordering::Less && bc == Ordering::Less, "strict chain reachable");
+    cover!(a == b && b == c, "equal triple reachable");
+    if a == b && b == c {
+        assert!(a == c, "eq_transitive");
+    }
+    if ab != Ordering::Greater && bc != Ordering::Greater {
+        assert!(ac != Ordering::Greater, "cmp_transitive");
+        if ab == Ordering::Less || bc == Ordering::Less {
+            assert!(ac == Ordering::Less, "cmp_transitive_strict");
+        }
+    }
+    std::mem::forget((a, b, c));
+}
+
+fn hash_pair(n: usize) {
+    let a = key_n(crate::s1(), n);
+    let b = key_n(crate::s1(), n);
+    let eq = a == b;
+    cover!(eq, "equal pair reachable");
+    let (mut ha, mut hb) = (RecHasher::new(), RecHasher::new());
+    a.hash(&mut ha);
+    b.hash(&mut hb);
+    let (ga, gb) = (a.get_hash(), b.get_hash());
+    if eq {
+        assert!(ha.same(&hb), "eq_implies_same_std_hash_stream");
+        assert!(ga == gb, "eq_implies_same_get_hash");
+    }
+    // get_hash is stable and survives clone
+    assert!(a.get_hash() == ga, "get_hash_stable");
+    let a2 = a.clone();
+    assert!(a2.get_hash() == ga, "get_hash_same_after_clone");
+    assert!(a2 == a, "clone_equal");
+    std::mem::forget((a, b, a2));
+}
+
+fn leak_labels(ls: &[(&'static str, &'static str)]) -> &'static [Label] {
+    let v: Vec<Label> = ls.iter().map(|(k, v)| Label::from_static_parts(k, v)).collect();
+    Box::leak(v.into_boxed_slice())
+}
+
+/// Builds the same logical key along one of the public construction paths.
+fn build(path: usize, name: &'static str, ls: &[(&'static str, &'static str)]) -> Key {
+    match path {
+        0 => Key::from_static_labels(name, leak_labels(ls)),
+        1 => Key::from_static_parts(name, leak_labels(ls)),
+        2 => {
+            let v: Vec<Label> = ls.iter().map(|(k, v)| Label::new(k.to_string(), v.to_string())).collect();
+            Key::from_parts(name.to_string(), v)
+        }
+        3 => {
+            let v: Vec<Label> = ls
+                .iter()
+                .map(|(k, v)| Label::new(SharedString::from_shared(Arc::from(*k)), SharedString::from_shared(Arc::from(*v))))
+                .collect();
+            Key::from_parts(SharedString::from_shared(Arc::from(name)), v)
+        }
+        4 => Key::from((name, ls)),
+        5 => {
+            let v: Vec<Label> = ls.iter().map(|(k, v)| Label::new(*k, *v)).collect();
+            Key::from_name(name).with_extra_labels(v)
+        }
+        6 => {
+            if ls.is_empty() {
+                return Key::from_name(KeyName::from_const_str(name));
+            }
+            let v: Vec<Label> = ls[1..].iter().map(|(k, v)| Label::new(*k, v.to_string())).collect();
+            Key::from_static_labels(name, leak_labels(&ls[..1])).with_extra_labels(v)
+        }
+        _ => build(0, name, ls).clone(),
+    }
+}
+
+fn paths(n: usize) {
+    let name = crate::s1();
+    let mut ls = [("", ""); 3];
+    for i in 0..n {
+        ls[i] = (crate::s1(), crate::s1());
+    }
+    let p = nd::below(8);
+    let q = nd::below(8);
+    let a = build(p, name, &ls[..n]);
+    let b = build(q, name, &ls[..n]);
+    assert!(a == b, "construction_path_irrelevant_eq");
+    assert!(a.cmp(&b) == Ordering::Equal, "construction_path_irrelevant_cmp");
+    let (mut ha, mut hb) = (RecHasher::new(), RecHasher::new());
+    a.hash(&mut ha);
+    b.hash(&mut hb);
+    assert!(ha.same(&hb), "construction_path_irrelevant_std_hash");
+    assert!(a.get_hash() == b.get_hash(), "construction_path_irrelevant_get_hash");
+    assert!(a.name() == name, "name_preserved");
+    let mut i = 0;
+    for l in a.labels() {
+        assert!(l.key() == ls[i].0 && l.value() == ls[i].1, "labels_preserved");
+        i += 1;
+    }
+    assert!(i == n, "label_count_preserved");
+    std::mem::forget((a, b));
+}
+
+/// distinct label names: supplied order is irrelevant
+fn perm(n: usize) {
+    let name = crate::s1();
+    const NAMES: [&str; 3] = ["a", "b", ""];
+    let mut ls = [("", ""); 3];
+    for i in 0..n {
+        ls[i] = (NAMES[i], crate::s1());
+    }
+    let mut ps = ls;
+    // a symbolic permutation by up to two swaps
+    let (i, j) = (nd::below(n), nd::below(n));
+    ps.swap(i, j);
+    if n > 2 {
+        let (k, l) = (nd::below(n), nd::below(n));
+        ps.swap(k, l);
+    }
+    cover!(ps[0].0 != ls[0].0, "a real permutation is reachable");
+    let a = Key::from_static_labels(name, leak_labels(&ls[..n]));
+    let b = Key::from_static_labels(name, leak_labels(&ps[..n]));
+    assert!(a == b, "label_order_irrelevant_eq");
+    assert!(a.cmp(&b) == Ordering::Equal, "label_order_irrelevant_cmp");
+    let (mut ha, mut hb) = (RecHasher::new(), RecHasher::new());
+    a.hash(&mut ha);
+    b.hash(&mut hb);
+    assert!(ha.same(&hb), "label_order_irrelevant_std_hash");
+    assert!(a.get_hash() == b.get_hash(), "label_order_irrelevant_get_hash");
+    std::mem::forget((a, b));
+}
+
+/// the n >= 8 arm: 8 labels, names fixed and distinct except a symbolic duplicate, two symbolic values
+fn big8() {
+    const N8: [&str; 8] = ["h", "g", "f", "e", "d", "c", "b", "a"];
+    let mut la = [("", ""); 8];
+    let mut lb = [("", ""); 8];
+    for i in 0..8 {
+        la[i] = (N8[i], "v");
+        lb[7 - i] = (N8[i], "v");
+    }
+    let d = nd::below(8);
+    la[d].1 = crate::s1();
+    let e = nd::below(8);
+    lb[e].1 = crate::s1();
+    let a = Key::from_static_labels("n", leak_labels(&la));
+    let b = Key::from_static_labels("n", leak_labels(&lb));
+    check_pair(&a, &b);
+    let (mut ha, mut hb) = (RecHasher::new(), RecHasher::new());
+    a.hash(&mut ha);
+    b.hash(&mut hb);
+    if a == b {
+        assert!(ha.same(&hb), "eq_implies_same_std_hash_stream");
+    }
+    std::mem::forget((a, b));
 }
 
 harnesses! {
@@ -48,4 +289,52 @@ harnesses! {
     fn c03_pair_2() { pair(2) }
     #[cfg_attr(kani, kani::unwind(6))]
     fn c03_pair_3() { pair(3) }
+    #[cfg_attr(kani, kani::unwind(7))]
+    fn c03_pair_4() { pair(4) }
+    #[cfg_attr(kani, kani::unwind(5))]
+    fn c03_pair_mixed() { pair_mixed() }
+    #[cfg_attr(kani, kani::unwind(4))]
+    fn c03_alias_0() { alias_pair(0) }
+    #[cfg_attr(kani, kani::unwind(4))]
+    fn c03_alias_1() { alias_pair(1) }
+    #[cfg_attr(kani, kani::unwind(4))]
+    fn c03_triple_1() { triple(1) }
+    #[cfg_attr(kani, kani::unwind(5))]
+    fn c03_triple_2() { triple(2) }
+    #[cfg_attr(kani, kani::unwind(6))]
+    fn c03_triple_3() { triple(3) }
+    #[cfg_attr(kani, kani::unwind(34))]
+    #[cfg_attr(kani, kani::stub(<metrics::KeyHasher as std::hash::Hasher>::write, kh_write))]
+    #[cfg_attr(kani, kani::stub(<metrics::KeyHasher as std::hash::Hasher>::finish, kh_finish))]
+    fn c03_hash_1() { hash_pair(1) }
+    #[cfg_attr(kani, kani::unwind(34))]
+    #[cfg_attr(kani, kani::stub(<metrics::KeyHasher as std::hash::Hasher>::write, kh_write))]
+    #[cfg_attr(kani, kani::stub(<metrics::KeyHasher as std::hash::Hasher>::finish, kh_finish))]
+    fn c03_hash_2() { hash_pair(2) }
+    #[cfg_attr(kani, kani::unwind(34))]
+    #[cfg_attr(kani, kani::stub(<metrics::KeyHasher as std::hash::Hasher>::write, kh_write))]
+    #[cfg_attr(kani, kani::stub(<metrics::KeyHasher as std::hash::Hasher>::finish, kh_finish))]
+    fn c03_hash_3() { hash_pair(3) }
+    #[cfg_attr(kani, kani::unwind(34))]
+    #[cfg_attr(kani, kani::stub(<metrics::KeyHasher as std::hash::Hasher>::write, kh_write))]
+    #[cfg_attr(kani, kani::stub(<metrics::KeyHasher as std::hash::Hasher>::finish, kh_finish))]
+    fn c03_paths_1() { paths(1) }
+    #[cfg_attr(kani, kani::unwind(34))]
+    #[cfg_attr(kani, kani::stub(<metrics::KeyHasher as std::hash::Hasher>::write, kh_write))]
+    #[cfg_attr(kani, kani::stub(<metrics::KeyHasher as std::hash::Hasher>::finish, kh_finish))]
+    fn c03_paths_2() { paths(2) }
+    #[cfg_attr(kani, kani::unwind(34))]
+    #[cfg_attr(kani, kani::stub(<metrics::KeyHasher as std::hash::Hasher>::write, kh_write))]
+    #[cfg_attr(kani, kani::stub(<metrics::KeyHasher as std::hash::Hasher>::finish, kh_finish))]
+    fn c03_paths_3() { paths(3) }
+    #[cfg_attr(kani, kani::unwind(34))]
+    #[cfg_attr(kani, kani::stub(<metrics::KeyHasher as std::hash::Hasher>::write, kh_write))]
+    #[cfg_attr(kani, kani::stub(<metrics::KeyHasher as std::hash::Hasher>::finish, kh_finish))]
+    fn c03_perm_2() { perm(2) }
+    #[cfg_attr(kani, kani::unwind(34))]
+    #[cfg_attr(kani, kani::stub(<metrics::KeyHasher as std::hash::Hasher>::write, kh_write))]
+    #[cfg_attr(kani, kani::stub(<metrics::KeyHasher as std::hash::Hasher>::finish, kh_finish))]
+    fn c03_perm_3() { perm(3) }
+    #[cfg_attr(kani, kani::unwind(34))]
+    fn c03_big8() { big8() }
 }
